@@ -378,16 +378,16 @@ fn domains() -> Domains {
         }
     };
     Domains {
-        area_opt: vec![opt("", "area_opt", "absent", &[]), o("area_opt", "good", "50", "-a"), o("area_opt", "good", "0.0011", "-a"), o("area_opt", "bad", "0.001", "-a"), o("area_opt", "bad", "0", "-a"), o("area_opt", "bad", "-5", "--arearef="), o("area_opt", "bad", "abc", "-a"), o("area_opt", "bad", "1 000", "-a"), o("area_opt", "bad", "100 m2", "--arearef=")],
-        area_meta: vec![meta("area_meta", "absent", "", None), meta("area_meta", "good:200.5", "CTE_AREAREF", Some("200.5")), meta("area_meta", "good:50", "CTE_AREAREF", Some("50")), legacy("area_meta", "good:75.25", "#CTE_Area_ref: 75.25"), legacy("area_meta", "good:1e2", "  #META   CTE_AREAREF :  1e2  "), meta("area_meta", "good:50.0004", "CTE_AREAREF", Some("50.0004")), meta("area_meta", "bad:abc", "CTE_AREAREF", Some("abc")), meta("area_meta", "bad:0", "CTE_AREAREF", Some("0")), legacy("area_meta", "good:60", "#CTE_Area_ref: 60\n#META CTE_AREAREF: 60"), meta("area_meta", "bad:100 m2", "CTE_AREAREF", Some("100 m2")), meta("area_meta", "bad:1 000", "CTE_AREAREF", Some("1 000")), meta("area_meta", "bad:1,5", "CTE_AREAREF", Some("1,5"))],
-        k_opt: vec![opt("", "k_opt", "absent", &[]), o("k_opt", "good", "0.5", "-k"), o("k_opt", "good", "0", "-k"), o("k_opt", "good", "1", "-k"), o("k_opt", "bad", "1.01", "-k"), o("k_opt", "bad", "-0.1", "--kexp="), o("k_opt", "bad", "x", "-k"), o("k_opt", "bad", "0.5 x", "-k"), o("k_opt", "bad", "0,5", "--kexp=")],
-        k_meta: vec![meta("k_meta", "absent", "", None), meta("k_meta", "good:0.7", "CTE_KEXP", Some("0.7")), meta("k_meta", "good:0.25", "CTE_KEXP", Some("0.25")), meta("k_meta", "good:0.5", "CTE_KEXP", Some("0.5")), legacy("k_meta", "good:0.3", "#CTE_kexp: 0.3"), meta("k_meta", "good:0", "CTE_KEXP", Some("0")), meta("k_meta", "good:1.0", "CTE_KEXP", Some("1.0")), meta("k_meta", "bad:2", "CTE_KEXP", Some("2")), meta("k_meta", "bad:x", "CTE_KEXP", Some("x")), legacy("k_meta", "good:0.4", "#META CTE_KEXP: 0.4\n#CTE_kexp: 0.4"), meta("k_meta", "bad:0.5 x", "CTE_KEXP", Some("0.5 x")), meta("k_meta", "bad:0,5", "CTE_KEXP", Some("0,5"))],
+        area_opt: vec![opt("", "area_opt", "absent", &[]), o("area_opt", "good", "50", "-a"), o("area_opt", "good", "0.0011", "-a"), o("area_opt", "good", "1", "-a"), o("area_opt", "good", "1.0", "--arearef="), o("area_opt", "bad", "0.001", "-a"), o("area_opt", "bad", "0", "-a"), o("area_opt", "bad", "-5", "--arearef="), o("area_opt", "bad", "abc", "-a"), o("area_opt", "bad", "NaN", "-a"), o("area_opt", "bad", "1 000", "-a"), o("area_opt", "bad", "100 m2", "--arearef=")],
+        area_meta: vec![meta("area_meta", "absent", "", None), meta("area_meta", "good:200.5", "CTE_AREAREF", Some("200.5")), meta("area_meta", "good:50", "CTE_AREAREF", Some("50")), legacy("area_meta", "good:75.25", "#CTE_Area_ref: 75.25"), legacy("area_meta", "good:1e2", "  #META   CTE_AREAREF :  1e2  "), meta("area_meta", "good:50.0004", "CTE_AREAREF", Some("50.0004")), meta("area_meta", "bad:abc", "CTE_AREAREF", Some("abc")), meta("area_meta", "bad:0", "CTE_AREAREF", Some("0")), legacy("area_meta", "good:60", "#CTE_Area_ref: 60\n#META CTE_AREAREF: 60"), meta("area_meta", "bad:100 m2", "CTE_AREAREF", Some("100 m2")), meta("area_meta", "bad:1 000", "CTE_AREAREF", Some("1 000")), meta("area_meta", "bad:nan", "CTE_AREAREF", Some("nan")), meta("area_meta", "bad:1,5", "CTE_AREAREF", Some("1,5"))],
+        k_opt: vec![opt("", "k_opt", "absent", &[]), o("k_opt", "good", "0.5", "-k"), o("k_opt", "good", "0", "-k"), o("k_opt", "good", "1", "-k"), o("k_opt", "bad", "1.01", "-k"), o("k_opt", "bad", "-0.1", "--kexp="), o("k_opt", "bad", "x", "-k"), o("k_opt", "bad", "0.5 x", "-k"), o("k_opt", "bad", "NaN", "-k"), o("k_opt", "bad", "0,5", "--kexp=")],
+        k_meta: vec![meta("k_meta", "absent", "", None), meta("k_meta", "good:0.7", "CTE_KEXP", Some("0.7")), meta("k_meta", "good:0.25", "CTE_KEXP", Some("0.25")), meta("k_meta", "good:0.5", "CTE_KEXP", Some("0.5")), legacy("k_meta", "good:0.3", "#CTE_kexp: 0.3"), meta("k_meta", "good:0", "CTE_KEXP", Some("0")), meta("k_meta", "good:1.0", "CTE_KEXP", Some("1.0")), meta("k_meta", "bad:2", "CTE_KEXP", Some("2")), meta("k_meta", "bad:x", "CTE_KEXP", Some("x")), legacy("k_meta", "good:0.4", "#META CTE_KEXP: 0.4\n#CTE_kexp: 0.4"), meta("k_meta", "bad:0.5 x", "CTE_KEXP", Some("0.5 x")), meta("k_meta", "bad:0,5", "CTE_KEXP", Some("0,5")), meta("k_meta", "bad:NaN", "CTE_KEXP", Some("NaN"))],
         loc_opt: vec![opt("", "loc_opt", "absent", &[]), o("loc_opt", "good", "PENINSULA", "-l"), o("loc_opt", "good", "CANARIAS", "-l"), o("loc_opt", "bad", "MARTE", "-l")],
         loc_meta: vec![meta("loc_meta", "absent", "", None), meta("loc_meta", "good:BALEARES", "CTE_LOCALIZACION", Some("BALEARES")), meta("loc_meta", "good:PENINSULA", "CTE_LOCALIZACION", Some("PENINSULA")), legacy("loc_meta", "good:CEUTAMELILLA", "#CTE_Localizacion: CEUTAMELILLA"), meta("loc_meta", "bad:LUNA", "CTE_LOCALIZACION", Some("LUNA"))],
-        red1_opt: vec![opt("", "red1_opt", "absent", &[]), opt("", "red1_opt", "good:0.5 0.5 0.1", &["--red1", "0.5", "0.5", "0.1"]), opt("", "red1_opt", "bad:a 1 1", &["--red1", "a", "1", "1"])],
-        red1_meta: vec![meta("red1_meta", "absent", "", None), meta("red1_meta", "good:0.2, 0.8, 0.05", "CTE_RED1", Some("0.2, 0.8, 0.05")), meta("red1_meta", "good:0.5, 0.5, 0.1", "CTE_RED1", Some("0.5, 0.5, 0.1")), meta("red1_meta", "good:0, 1.3, 0.3", "CTE_RED1", Some("0, 1.3, 0.3")), meta("red1_meta", "bad:x, y", "CTE_RED1", Some("x, y")), meta("red1_meta", "bad:1, 2", "CTE_RED1", Some("1, 2"))],
-        red2_opt: vec![opt("", "red2_opt", "absent", &[]), opt("", "red2_opt", "good:0.25 0.75 0.2", &["--red2", "0.25", "0.75", "0.2"]), opt("", "red2_opt", "bad:1 b 1", &["--red2", "1", "b", "1"])],
-        red2_meta: vec![meta("red2_meta", "absent", "", None), meta("red2_meta", "good:0.4, 0.6, 0.15", "CTE_RED2", Some("0.4, 0.6, 0.15")), meta("red2_meta", "good:0.25, 0.75, 0.2", "CTE_RED2", Some("0.25, 0.75, 0.2")), meta("red2_meta", "bad:nada", "CTE_RED2", Some("nada"))],
+        red1_opt: vec![opt("", "red1_opt", "absent", &[]), opt("", "red1_opt", "good:0.5 0.5 0.1", &["--red1", "0.5", "0.5", "0.1"]), opt("", "red1_opt", "good:0 1.3 0.3", &["--red1", "0", "1.3", "0.3"]), opt("", "red1_opt", "bad:a 1 1", &["--red1", "a", "1", "1"]), opt("", "red1_opt", "bad:NaN 1 1", &["--red1", "NaN", "1", "1"])],
+        red1_meta: vec![meta("red1_meta", "absent", "", None), meta("red1_meta", "good:0.2, 0.8, 0.05", "CTE_RED1", Some("0.2, 0.8, 0.05")), meta("red1_meta", "good:0.5, 0.5, 0.1", "CTE_RED1", Some("0.5, 0.5, 0.1")), meta("red1_meta", "good:0, 1.3, 0.3", "CTE_RED1", Some("0, 1.3, 0.3")), meta("red1_meta", "bad:x, y", "CTE_RED1", Some("x, y")), meta("red1_meta", "bad:1, 2", "CTE_RED1", Some("1, 2")), meta("red1_meta", "bad:0.1, nan, 0.2", "CTE_RED1", Some("0.1, nan, 0.2"))],
+        red2_opt: vec![opt("", "red2_opt", "absent", &[]), opt("", "red2_opt", "good:0.25 0.75 0.2", &["--red2", "0.25", "0.75", "0.2"]), opt("", "red2_opt", "good:0.0 1.3 0.3", &["--red2", "0.0", "1.3", "0.3"]), opt("", "red2_opt", "bad:1 b 1", &["--red2", "1", "b", "1"]), opt("", "red2_opt", "bad:0.5 0.5 NaN", &["--red2", "0.5", "0.5", "NaN"])],
+        red2_meta: vec![meta("red2_meta", "absent", "", None), meta("red2_meta", "good:0.4, 0.6, 0.15", "CTE_RED2", Some("0.4, 0.6, 0.15")), meta("red2_meta", "good:0.25, 0.75, 0.2", "CTE_RED2", Some("0.25, 0.75, 0.2")), meta("red2_meta", "bad:nada", "CTE_RED2", Some("nada")), meta("red2_meta", "bad:NaN, 1, 1", "CTE_RED2", Some("NaN, 1, 1"))],
         file: vec![opt("", "file", "absent", &[]), opt("", "file", "good:f.csv", &["-f", "@f.csv"])],
     }
 }
